@@ -233,7 +233,9 @@ def playback_run(module, tests, timeout=2400):
     C.ensure_dirs()
     inc = os.path.join(C.CACHE, "playback", module + ".rs")
     # every module's include file must exist for the test-cfg build
-    for m in MODULES:
+    import glob
+    names = set(MODULES) | set(os.path.basename(f)[:-3] for f in glob.glob(os.path.join(C.VERIF, "kani", "*.rs")))
+    for m in names:
         p = os.path.join(C.CACHE, "playback", m + ".rs")
         if not os.path.exists(p) or m == module:
             C.write(p, "")
